@@ -182,6 +182,44 @@ func (c04) Run(ts *tape.Set, tier Tier) *Result {
 	var opErr error
 	sawSeek, sawData := false, false
 	lastReader := -1
+	// a SLOPPY file that shares leaf blocks with the file under test and is
+	// read first, in the same process: its root links to the same raw leaves
+	// but claims wrong sizes for them (Tsize is not validated by anything).
+	// Whatever the library makes of that file, it must not change what the
+	// well-formed file's readers do afterwards.
+	if fragSeed%3 == 0 {
+		seen := map[string]bool{}
+		tw := &gen.RawNode{Data: []byte{0x08, 0x02}, HasData: true}
+		for _, sp := range model.Spans {
+			if sp.Raw && !seen[sp.Cid.KeyString()] && len(tw.Links) < 24 {
+				seen[sp.Cid.KeyString()] = true
+				wrong := uint64(1 + (fragSeed>>8+uint64(len(tw.Links))*7)%5)
+				if int64(wrong) == sp.End-sp.Start {
+					wrong++
+				}
+				tw.Links = append(tw.Links, gen.RawLink{Hash: sp.Cid.Bytes(), HasHash: true, Name: "", HasName: true, Tsize: wrong, HasTsize: true})
+			}
+		}
+		if len(tw.Links) > 0 {
+			tb := tw.Encode()
+			if tc, err := (cid.Prefix{Version: 1, Codec: cid.DagProtobuf, MhType: 0x12, MhLength: 32}).Sum(tb); err == nil {
+				st.Put(tc, tb)
+				_, _, _ = guard(func() {
+					if tn, _, err := openFile(w, tc, via); err == nil {
+						_, _ = tn.AsBytes()
+						if lb, ok := tn.(datamodel.LargeBytesNode); ok {
+							if rs, err := lb.AsLargeBytes(); err == nil {
+								_, _ = rs.Seek(3, io.SeekStart)
+								_, _ = rs.Read(make([]byte, 8))
+								_, _ = rs.Seek(-1, io.SeekEnd)
+							}
+						}
+					}
+				})
+				res.probe("sloppy-file-sharing-leaves-read-first")
+			}
+		}
+	}
 
 	panicked, site, pmsg := guard(func() {
 		n, how, err := openFile(w, root, via)
